@@ -170,6 +170,8 @@ type Exec struct {
 	nestLimit int
 	concrete  *replayVec // concrete mode: inputs come from this vector
 	skipInits bool
+	qlabel    string
+	lastProgress time.Time
 	lastDone  *State
 }
 
@@ -187,6 +189,12 @@ func (x *Exec) eager(st *State) bool {
 
 // check asks the portfolio; "unknown" only if no back end decides.
 func (x *Exec) check(pc []*Term, extra *Term) string {
+	t0 := time.Now()
+	defer func() {
+		if d := time.Since(t0); d > 2*time.Second && progressEvery > 0 {
+			fmt.Fprintf(os.Stderr, "slow query %.1fs label=%s pc=%d\n", d.Seconds(), x.qlabel, len(pc))
+		}
+	}()
 	r := x.sol.CheckPC(pc, extra)
 	if r != "unknown" {
 		return r
@@ -230,6 +238,10 @@ func (x *Exec) feasible(st *State, c, branch *Term) bool {
 	if x.eager(st) || x.freshFlag(st, c) {
 		return true
 	}
+	if progressEvery > 0 {
+		f := x.top(st)
+		x.qlabel = fmt.Sprintf("branch %s#%d", f.fn.Name(), f.block.Index)
+	}
 	r := x.check(st.pc, branch)
 	// unknown: keep the path (sound for violations because every assertion query carries the
 	// full path condition), but remember that a query was undecided.
@@ -247,9 +259,17 @@ func (x *Exec) explore(st *State, stop func(*State) bool) (out []*State) {
 			x.res.Incomplete = fmt.Sprintf("path limit %d reached", x.pathLimit)
 			return
 		}
-		if !x.deadline.IsZero() && x.res.Instrs%4096 == 0 && time.Now().After(x.deadline) {
-			x.res.Incomplete = "wall-clock budget exhausted"
-			return
+		if x.res.Instrs%4096 == 0 {
+			now := time.Now()
+			if !x.deadline.IsZero() && now.After(x.deadline) {
+				x.res.Incomplete = "wall-clock budget exhausted"
+				return
+			}
+			if progressEvery > 0 && now.Sub(x.lastProgress) > progressEvery {
+				x.lastProgress = now
+				f := x.top(st)
+				fmt.Fprintf(os.Stderr, "progress: paths=%d killed=%d forks=%d merges=%d instrs=%d queries=%d solver=%v depth=%d at %s#%d pc=%d\n", x.res.Paths, x.res.Killed, x.res.Forks, x.res.Merges, x.res.Instrs, x.res.Solver.Queries, x.res.Solver.Dur, len(st.frames), f.fn.Name(), f.block.Index, len(st.pc))
+			}
 		}
 		if len(st.frames) == 0 {
 			x.lastDone = st
@@ -467,14 +487,109 @@ func (x *Exec) constVal(c *ssa.Const) Value {
 	panic("constVal: " + c.String())
 }
 
+// alts lists every alternative of p (none for the nil pointer).
+func (x *Exec) alts(p PtrV) []PtrAlt {
+	if p.obj < 0 {
+		return nil
+	}
+	if len(p.more) == 0 {
+		return []PtrAlt{{p.obj, p.path, p.nonnil}}
+	}
+	return append([]PtrAlt{{p.obj, p.path, p.nonnil}}, p.more...)
+}
+
+func (x *Exec) ptrFromAlts(a []PtrAlt) PtrV {
+	if len(a) == 0 {
+		return PtrV{obj: -1, nonnil: x.mkBool(false)}
+	}
+	p := PtrV{obj: a[0].obj, path: a[0].path, nonnil: a[0].g}
+	if len(a) > 1 {
+		p.more = a[1:]
+	}
+	return p
+}
+
+// ptrNonNil: the pointer is non-nil iff one of its guards holds.
+func (x *Exec) ptrNonNil(p PtrV) *Term {
+	if p.obj < 0 {
+		return x.mkBool(false)
+	}
+	r := p.nonnil
+	for _, a := range p.more {
+		r = x.mkOr(r, a.g)
+	}
+	return r
+}
+
+// resolvePtr forks until the pointer denotes a single object (panics the path if nil).
+func (x *Exec) resolvePtr(st *State, p PtrV, what string) PtrV {
+	if p.obj < 0 {
+		panic(execPanic{what})
+	}
+	if len(p.more) == 0 {
+		x.checkNonNil(st, p.nonnil, false, what)
+		return PtrV{obj: p.obj, path: p.path, nonnil: x.mkBool(true)}
+	}
+	for _, a := range x.alts(p) {
+		if x.decide(st, a.g) {
+			return PtrV{obj: a.obj, path: a.path, nonnil: x.mkBool(true)}
+		}
+	}
+	panic(execPanic{what})
+}
+
 func (x *Exec) load(st *State, p PtrV) Value {
-	x.checkNonNil(st, p.nonnil, p.obj < 0, "nil dereference")
-	return getPath(st.heap[p.obj], p.path)
+	if len(p.more) == 0 {
+		x.checkNonNil(st, p.nonnil, p.obj < 0, "nil dereference")
+		return getPath(st.heap[p.obj], p.path)
+	}
+	x.checkNonNil(st, x.ptrNonNil(p), false, "nil dereference")
+	al := x.alts(p)
+	res := getPath(st.heap[al[len(al)-1].obj], al[len(al)-1].path)
+	okAll := true
+	for k := len(al) - 2; k >= 0 && okAll; k-- {
+		v := getPath(st.heap[al[k].obj], al[k].path)
+		m, ok := x.mergeVal(v, res, al[k].g)
+		if !ok {
+			okAll = false
+			break
+		}
+		res = m
+	}
+	if okAll {
+		return res
+	}
+	q := x.resolvePtr(st, p, "nil dereference")
+	return getPath(st.heap[q.obj], q.path)
 }
 
 func (x *Exec) store(st *State, p PtrV, v Value) {
-	x.checkNonNil(st, p.nonnil, p.obj < 0, "nil dereference (store)")
-	st.heap[p.obj] = setPath(st.heap[p.obj], p.path, v)
+	if len(p.more) == 0 {
+		x.checkNonNil(st, p.nonnil, p.obj < 0, "nil dereference (store)")
+		st.heap[p.obj] = setPath(st.heap[p.obj], p.path, v)
+		return
+	}
+	x.checkNonNil(st, x.ptrNonNil(p), false, "nil dereference (store)")
+	al := x.alts(p)
+	nvs := make([]Value, len(al))
+	okAll := true
+	for k, a := range al {
+		old := getPath(st.heap[a.obj], a.path)
+		m, ok := x.mergeVal(v, old, a.g)
+		if !ok {
+			okAll = false
+			break
+		}
+		nvs[k] = m
+	}
+	if !okAll {
+		q := x.resolvePtr(st, p, "nil dereference (store)")
+		st.heap[q.obj] = setPath(st.heap[q.obj], q.path, v)
+		return
+	}
+	for k, a := range al {
+		st.heap[a.obj] = setPath(st.heap[a.obj], a.path, nvs[k])
+	}
 }
 
 // checkNonNil: decide first (may fork), panic path if nil.
@@ -517,7 +632,11 @@ func (x *Exec) step(st *State) {
 		f.ip++
 	case *ssa.FieldAddr:
 		p := x.val(st, i.X).(PtrV)
-		f.env[i] = PtrV{obj: p.obj, path: append(append([]int(nil), p.path...), i.Field), nonnil: p.nonnil}
+		np := PtrV{obj: p.obj, path: append(append([]int(nil), p.path...), i.Field), nonnil: p.nonnil}
+		for _, a := range p.more {
+			np.more = append(np.more, PtrAlt{a.obj, append(append([]int(nil), a.path...), i.Field), a.g})
+		}
+		f.env[i] = np
 		f.ip++
 	case *ssa.Field:
 		f.env[i] = x.val(st, i.X).(StructV).f[i.Field]
@@ -811,7 +930,7 @@ func (x *Exec) indexAddr(st *State, base Value, idxv Value) Value {
 		k := x.concreteIndex(st, idx, b.length)
 		return PtrV{obj: b.arr, path: []int{b.off + k}, nonnil: x.mkBool(true)}
 	case PtrV: // pointer to array
-		x.checkNonNil(st, b.nonnil, b.obj < 0, "nil array pointer")
+		b = x.resolvePtr(st, b, "nil array pointer")
 		arr := getPath(st.heap[b.obj], b.path).(ArrayV)
 		if !idx.isConst() {
 			// symbolic index into an array of scalars: address is resolved lazily by
@@ -861,7 +980,7 @@ func (x *Exec) sliceOp(st *State, i *ssa.Slice) Value {
 		}
 		return SliceV{arr: b.arr, off: b.off + lo, length: hi - lo, capacity: mx - lo}
 	case PtrV: // *array
-		x.checkNonNil(st, b.nonnil, b.obj < 0, "nil array pointer (slice)")
+		b = x.resolvePtr(st, b, "nil array pointer (slice)")
 		arr := getPath(st.heap[b.obj], b.path).(ArrayV)
 		if len(b.path) != 0 {
 			panic("slice of nested array unsupported")
@@ -1133,19 +1252,16 @@ func samePath(a, b []int) bool {
 }
 
 func (x *Exec) ptrEq(a, b PtrV) *Term {
-	if a.obj < 0 && b.obj < 0 {
-		return x.mkBool(true)
+	na, nb := x.ptrNonNil(a), x.ptrNonNil(b)
+	eq := x.mkAnd(x.mkNot(na), x.mkNot(nb)) // both nil
+	for _, aa := range x.alts(a) {
+		for _, bb := range x.alts(b) {
+			if aa.obj == bb.obj && samePath(aa.path, bb.path) {
+				eq = x.mkOr(eq, x.mkAnd(aa.g, bb.g))
+			}
+		}
 	}
-	if a.obj < 0 {
-		return x.mkNot(b.nonnil)
-	}
-	if b.obj < 0 {
-		return x.mkNot(a.nonnil)
-	}
-	if a.obj == b.obj && samePath(a.path, b.path) {
-		return x.mkOr(x.mkAnd(a.nonnil, b.nonnil), x.mkAnd(x.mkNot(a.nonnil), x.mkNot(b.nonnil)))
-	}
-	return x.mkAnd(x.mkNot(a.nonnil), x.mkNot(b.nonnil))
+	return eq
 }
 
 func (x *Exec) ifaceEq(a, b IfaceV) *Term {
